@@ -287,6 +287,12 @@ pub fn run_case(case: &Case) -> Outcome {
         if m == "json-structure" {
             out.probe("fault:json-member-of-wrong-type-or-missing", 1);
         }
+        if m == "json-members" {
+            out.probe("fault:json-member-repeated-moved-or-foreign", 1);
+        }
+        if m == "bad-utf8" {
+            out.probe("fault:ill-formed-utf8-sequence-inserted", 1);
+        }
     }
     out.nontrivial = fired > 0 || stats.short_ops.get() > 0 || case.extra.contains_key("mutation");
     out.fingerprint = mix(&[fnv1a(rendered.as_bytes()), stats.calls.get(), stats.delivered.get() as u64, ticks]);
@@ -385,6 +391,18 @@ pub fn enumerate_single_faults(prop: &str, base: &[u8], kind: &str, grid: bool, 
                         c.extra.insert("mutation".into(), "utf8-splice".into());
                         cases.push(c);
                     }
+                }
+            }
+        }
+        // ill-formed UTF-8 of every kind at every offset (every third one in longer documents)
+        if n <= 512 && !sink.ends_with("-str") {
+            for off in (0..=n).step_by(if n <= 160 { 1 } else { 3 }) {
+                for (k, seq) in mutate::BAD_UTF8.iter().enumerate() {
+                    let mut d = base.to_vec();
+                    d.splice(off..off, seq.iter().cloned());
+                    let mut c = mk(sink, &d, format!("bad-utf8#{k}@{off}"));
+                    c.extra.insert("mutation".into(), "bad-utf8".into());
+                    cases.push(c);
                 }
             }
         }
